@@ -156,7 +156,12 @@ partial def parseSchema (j : Json) : Except String Schema := do
       | p => throw s!"bad policy {p}"
     return .dict pol (fs.map (·.1)) (fs.map (·.2))
   | "date" => return .date
-  | "joined" => return .joined (← cfld j "sep") (← bfld j "prune") (← parseKind (← fld j "member"))
+  | "joined" =>
+    let sp ← match (fldD j "splitter" (Json.str "static")) with
+      | .str "static" => pure Splitter.static
+      | .str "commaws" => pure Splitter.commaWs
+      | o => do pure (Splitter.anyOf (← cfld o "anyof"))
+    return .joined (← cfld j "sep") sp (← bfld j "prune") (← parseKind (← fld j "member"))
   | t => throw s!"bad schema {t}"
 
 open Flatland.C04 in
